@@ -105,6 +105,12 @@ Example C06_outside_known_nonvacuous :
 Proof. exact run_spec_nonvacuous. Qed.
 Print Assumptions C06_outside_known_nonvacuous.
 
+(* (3') HOLDS since fix 6d1bd7f (before it: a reference of 961..1024 field bytes was signed and never
+   verified): whatever sign() accepts, verify() accepts — for every layout, row and JSON verdict *)
+Theorem C06_sign_then_verify_holds : forall l r j, sign_accept l r j = true -> accept l r j = true.
+Proof. exact sign_then_verify. Qed.
+Print Assumptions C06_sign_then_verify_holds.
+
 (* (4) every field of the six signed structures, the signature excepted, is part of the digest *)
 Theorem C06_all_fields_signed : all_fields_hashed = true.
 Proof. exact all_fields_hashed_ok. Qed.
